@@ -710,6 +710,9 @@ func RunC19Shredding(ctx *core.Ctx) {
 			r := ctx.Rand(fmt.Sprintf("c19-shred-%d", w))
 			d := ctx.Driver()
 			var p c19Pending
+			if w == 0 {
+				c19ForeignDirected(ctx, r, d, &p)
+			}
 			for i := 0; i < total/nw; i++ {
 				c19ShredCase(ctx, r, &p, w == 0 && i < 2)
 				if i%2 == 0 {
@@ -717,6 +720,9 @@ func RunC19Shredding(ctx *core.Ctx) {
 				}
 				if i%4 == 1 {
 					c19LayoutCase(ctx, r) // small pages and dictionaries, several row groups, cursor reader
+				}
+				if !ctx.Thorough() || i%3 == 0 {
+					c19ForeignCases(ctx, r, d, &p) // files built cell by cell the way another writer lays them out
 				}
 				if len(p.reqs) >= 1000 {
 					p.flush(ctx, d)
@@ -968,6 +974,13 @@ func c19ShredCase(ctx *core.Ctx, r *rand.Rand, p *c19Pending, sample bool) {
 					}
 				})
 			}
+		}
+		{ // ---- L2: definition / repetition levels of every leaf column against the level mirror
+			evs := make([][]c19Ev, nrows)
+			for i := range evs {
+				evs[i] = c19AncestorEvents("top", nil)
+			}
+			c19CheckLevels(ctx, p, "top", s, data, wp.name, evs, values, detail)
 		}
 		sum := make([]int64, len(leafPaths))
 		pending := nrows
